@@ -1,6 +1,6 @@
 """What is claimed, per property. A property appears in CLAIMS only once its checker exists and
 passes on the unchanged tree."""
-FIX_COMMITS = ["4e9e139", "5ee6583", "744f482", "eb93a13", "ceb972a", "a924d81", "2127bcd", "d45c8ce"]
+FIX_COMMITS = ["4e9e139", "5ee6583", "744f482", "eb93a13", "ceb972a", "a924d81", "2127bcd", "d45c8ce", "840f793"]
 
 CLAIMS = {
     "C09": dict(
@@ -88,6 +88,16 @@ CLAIMS = {
         ref="DESIGN.md §3 C17, appendix C",
         note="trusts the typing facts tabled in kverif/typemodel.py (origin/args per category) and copy.copy's sharing semantics",
         technique="static analysis: abstract evaluation over a finite annotation-category domain, CFG must-pass-through, effect/alias analysis",
+    ),
+    "C06": dict(
+        text="Decides the generator-side necessary conditions visible in source: field classification over the annotation grammar "
+             "(exhaustive over its categories), dispatch of every category to the creator the statement demands with only private fields "
+             "skipped, the mapper-argument table, import/emit pairing of every module-qualified name, non-unification of identifier "
+             "templates within a namespace, and no output-producing iteration over an unordered set (determinism). That SQLAlchemy accepts "
+             "the generated module (import, configure_mappers, create_all) is not decided.",
+        ref="DESIGN.md §3 C06, appendix C",
+        note="trusts the typing facts in kverif/typemodel.py; one known finding (self-referential collection names)",
+        technique="static analysis: two-stage finite decision-table extraction, emit/import pairing by CFG dominance, template unification, set-iteration lint with positive control",
     ),
 }
 
